@@ -602,6 +602,26 @@ impl Driver {
         }
         Pkt::Connack { ver, sp, code, props }
     }
+    /// contents dimension: now and then push a v5.0 property section to the boundary where its length prefix grows
+    /// from one to two bytes (a Topic Alias added or removed by the library then crosses it), or give an ack properties
+    fn pad_props(&mut self, props: &mut Vec<Prop>, pct: u64) {
+        if self.r.below(100) >= pct {
+            return;
+        }
+        let cur: usize = props
+            .iter()
+            .map(|p| {
+                let mut b = Vec::new();
+                rc::encode_prop(p, &mut b);
+                b.len()
+            })
+            .sum();
+        let target = if self.r.below(4) == 0 { 4 + self.r.usize(30) } else { 122 + self.r.usize(10) };
+        if target >= cur + 7 {
+            let l = target - cur - 7;
+            props.push(Prop { id: 38, val: PVal::Pair(b"k".to_vec(), vec![b'v'; l]) });
+        }
+    }
     fn our_publish(&mut self, qos: u8, id: Option<u32>) -> Pkt {
         let ver = self.ver();
         let mut topic = self.r.pick(&TOPICS).as_bytes().to_vec();
@@ -621,6 +641,9 @@ impl Driver {
             1 => 20,
             _ => 1 + self.r.usize(4),
         };
+        if ver == Ver::V5 {
+            self.pad_props(&mut props, 6);
+        }
         Pkt::Publish { ver, dup: false, qos, retain: false, topic, id, props, payload: vec![b'p'; pl] }
     }
     fn peer_publish(&mut self) -> Pkt {
@@ -641,6 +664,9 @@ impl Driver {
             }
         }
         let dup = qos > 0 && self.r.below(4) == 0;
+        if ver == Ver::V5 {
+            self.pad_props(&mut props, 4);
+        }
         Pkt::Publish { ver, dup, qos, retain: false, topic, id, props, payload: vec![b'q'; 1 + self.r.usize(3)] }
     }
     fn ack(&mut self, kind: AckKind, id: u32, fail: bool) -> Pkt {
@@ -654,6 +680,14 @@ impl Driver {
             }
         } else {
             (None, None)
+        };
+        // an ack with properties is bigger than the bare one: it can be oversize for the next connection's limit
+        let (code, props) = if ver == Ver::V5 && self.r.below(100) < 8 {
+            let mut ps = props.unwrap_or_default();
+            self.pad_props(&mut ps, 100);
+            (Some(code.unwrap_or(0)), Some(ps))
+        } else {
+            (code, props)
         };
         Pkt::Ack { ver, kind, id, code, props }
     }
